@@ -39,4 +39,7 @@ UnrolledEqualsAbstract ==      \* the code's fast predicate is the abstract one,
                     (hi - si >= 2) => (InTolUnrolled(Slice(si, hi), tol[2], tol[3]) <=> AllInTol(Slice(si, hi), tol[2], tol[3]))
 SliceHasInterior == (pc = "inner") => (IF ei + 1 <= Len(cur) THEN ei ELSE Len(cur) - 1) - si >= 2   \* the code's assert never fires
 IndicesSane == si >= 0 /\ Len(cur) >= 1 /\ (pc = "inner" => ei >= si + 2)
+(* ---- liveness: the index walk terminates for every list and tolerance ---- *)
+FairSpec == Spec /\ WF_vars(Next)
+EventuallyDone == <>(pc = "done")
 =============================================================================
